@@ -115,7 +115,7 @@ def yielded_uds(case, obs):
             r = c[1]
             pos[ci] = len(seq.setdefault(r, []))
             if isinstance(o, list):
-                seq[r].append(o[0])
+                seq[r].append("(%d, %s)" % (o[0], ("(%d)%%Z" % o[1]) if o[1] < 0 else ("%d%%Z" % o[1])))
     return seq, pos
 
 
@@ -379,7 +379,7 @@ def oracle(case, obs):
                 if res != e["expect"]:
                     what = {EINVAL: "an unsupported flag", ECANCELED: "a cancelled operation", 0: "a cancel that found its target", ENOENT: "a cancel without target"}[e["expect"]]
                     fail("cmd %d: ud=%d is %s, result %d instead of %d" % (ci, ud, what, res, e["expect"]))
-                if twin not in ("none", None) and e["expect"] in (ECANCELED, EINVAL):
+                if twin not in ("none", "ambiguous", None) and e["expect"] in (ECANCELED, EINVAL):
                     fail("cmd %d: ud=%d must not be applied but was" % (ci, ud))
             elif len(cands) == 1:
                 # executed: must equal the synchronous API on the twin file system
@@ -419,7 +419,10 @@ def oracle(case, obs):
     for (oi, ring, ud, buf) in bufs:
         e = None
         if ring < len(rings):
-            e = next((x for x in rings[ring]["acc"] if x["op"][0] == "read" and x["ud"] == ud), None)
+            same_ud = [x for x in rings[ring]["acc"] if x["ud"] == ud]
+            if len(same_ud) > 1 or sum(1 for b in bufs if b[1] == ring and b[2] == ud) > 1:
+                continue            # user_data reused: the buffer cannot be attributed
+            e = next((x for x in same_ud if x["op"][0] == "read"), None)
         n = 0
         if e is not None and e["done"] == 1 and e.get("res", 0) > 0 and not e["cancelled"]:
             n = e["res"]
